@@ -129,9 +129,22 @@ def run_c13(out, tier, seed, replay):
             out.add_tlc(r, "SemEval (least models of seeded random schedules of the custom-provider programs)")
         for it in ds_items:
             by.setdefault(it["prog"]["name"], []).append({"inputs": it["inputs"], "lm": ds_lms[it["id"]]})
+    # seeded random databases beyond the exhaustive bound (up to 8 tuples per relation over 6 constants) for the programs
+    # without custom providers: index merging paths depend on relative sizes (frontier larger than everything before it)
+    big_items = []
+    for p in sel:
+        if not is_ds(p) and "stress" not in p["tags"]:
+            for k in range(10 if tier == "quick" else 60):
+                big_items.append({"id": len(big_items) + 1, "pi": pidx[p["name"]], "inputs": sem.random_inputs(p, rnd), "prog": p})
+    big_lms, evres = semlib.eval_least_models(sel, big_items, os.path.join(work, "big_idem"))
+    for r in evres:
+        out.add_tlc(r, "SemEval (least models of seeded random databases)")
+    for it in big_items:
+        by.setdefault(it["prog"]["name"], []).append({"inputs": it["inputs"], "lm": big_lms[it["id"]], "keep": True})
     cap = 50 if tier == "quick" else 400
     for p in sel:
-        chosen = sem.select_cases(by.get(p["name"], []), cap, rnd)
+        pcs = by.get(p["name"], [])
+        chosen = sem.select_cases([c for c in pcs if not c.get("keep")], cap, rnd) + [c for c in pcs if c.get("keep")]
         for c in chosen:
             ops = semlib.input_ops(p, c["inputs"]) + [{"op": "run"}, {"op": "run"}, {"op": "run"}]
             for var in ("ser", "par"):
